@@ -150,11 +150,11 @@ def writers_rule(ctx, I):
                                                                'sort', 'reverse'))
     for (q, meth, line) in muts:
         ctx.instance('C12.R4', (q, meth))
-        if meth not in allowed.get(q, ()):
+        if not any(meth in ms and census.only_reached_through(m, q, (owner,)) for owner, ms in allowed.items()):
             ctx.report('C12.R4', q, 'excludedRegions.%s' % meth, 'unexpected writer of the region list', line=line)
     for (q, val, line, mod, aug) in census.attr_stores(m, 'excludedRegions'):
         ctx.instance('C12.R4', (q, 'store'))
-        if q != 'ExcludeRegionState.resetState':
+        if not census.only_reached_through(m, q, ('ExcludeRegionState.resetState',)):
             ctx.report('C12.R4', q, 'excludedRegions = ...', 'the region list is replaced outside resetState', line=line)
     # resetState is not reachable from the API entry points
     from .plugin import api_data
@@ -189,7 +189,7 @@ def geometry_rule(ctx):
                 ctx.report('C12.R6', q, '.%s = ...' % attr, 'region geometry is written outside the region classes', line=line)
                 continue
             ctx.instance('C12.R6', (q, attr))
-            if not q.endswith('.__init__'):
+            if not census.only_reached_through(m, q, ('%s.__init__' % cls,)):
                 ctx.report('C12.R6', q, '.%s = ...' % attr,
                            'region geometry is modified after construction: a stored region could shrink in place '
                            'without passing the containment test', line=line)
